@@ -16,11 +16,13 @@ func init() {
 	darwinRules["C20"] = runC20
 }
 
-// notSupportedSites is the reviewed census of R20.2: site function → allowed wrapped causes (substring of the origin).
-var notSupportedSites = map[string][]string{
-	"sack.runSackTraceroute":               {"sack.dialSackTCP#", "errorf(SACK traceroute is not"},
-	"(*sack.sackDriver).handleHandshake":   {"errorf(SACK not supported by"},
-	"(*sack.sackDriver).handleProbeLayers": {"sack.getMinSack#errorf(sackDriver found no SACK"},
+// notSupportedSites is the reviewed census of R20.2: site function → the kinds of cause it may wrap, each with the number of
+// distinct creation sites of that kind confirmed by reading. Keys are "<creating function>#<kind>(": the message text is not
+// part of the key (rewording a message is not a change of behaviour); an additional cause of the same kind changes the count.
+var notSupportedSites = map[string]map[string]int{
+	"sack.runSackTraceroute":               {"sack.dialSackTCP#": -1, "sack.runSackTraceroute#errorf(": 1}, // dial failure (any number of inner causes); platform cannot hold a second socket
+	"(*sack.sackDriver).handleHandshake":   {"(*sack.sackDriver).handleHandshake#errorf(": 1},             // SYNACK without SACK-permitted
+	"(*sack.sackDriver).handleProbeLayers": {"sack.getMinSack#errorf(": 1},                                  // ACK without SACK blocks
 }
 
 func runC20(c *Ctx) {
@@ -177,7 +179,7 @@ func checkNotSupportedCensus(c *Ctx) {
 	R := c.R
 	ea := NewErrAnalysis(c)
 	n := 0
-	found := map[string]bool{}
+	found := map[string]map[string]bool{} // site|prefix → distinct origins
 	for _, f := range c.P.ModFuncs {
 		for _, b := range f.Blocks {
 			for _, in := range b.Instrs {
@@ -193,10 +195,13 @@ func checkNotSupportedCensus(c *Ctx) {
 				for _, e := range ea.classOf(mi, f, map[ssa.Value]bool{}).sorted() {
 					key := fmt.Sprintf("%s#NotSupported(%s)", fn, shortOrigin(e.Origin))
 					allowed := false
-					for _, sub := range notSupportedSites[fn] {
-						if strings.Contains(e.Origin, sub) {
+					for pre := range notSupportedSites[fn] {
+						if strings.HasPrefix(e.Origin, pre) {
 							allowed = true
-							found[fn+"|"+sub] = true
+							if found[fn+"|"+pre] == nil {
+								found[fn+"|"+pre] = map[string]bool{}
+							}
+							found[fn+"|"+pre][e.Origin] = true
 						}
 					}
 					if allowed {
@@ -209,10 +214,19 @@ func checkNotSupportedCensus(c *Ctx) {
 		}
 	}
 	R.Floor("R20.2:NotSupported-sites", n, 4)
-	for fn, subs := range notSupportedSites {
-		for _, sub := range subs {
-			if !found[fn+"|"+sub] && !(sub == "sack.dialSackTCP#" && found[fn+"|"+sub]) {
-				R.Fail("R20.2", fn+"#expected["+sub+"]", 0, fn, "the reviewed capability verdict ("+sub+"…) is no longer produced: SACK unavailability would surface as a fatal error instead of a fallback")
+	for fn, pres := range notSupportedSites {
+		for pre, want := range pres {
+			got := len(found[fn+"|"+pre])
+			switch {
+			case got == 0:
+				R.Fail("R20.2", fn+"#expected["+pre+"]", 0, fn, "the reviewed capability verdict ("+pre+"…) is no longer produced: SACK unavailability would surface as a fatal error instead of a fallback")
+			case want >= 0 && got > want:
+				var os []string
+				for o := range found[fn+"|"+pre] {
+					os = append(os, shortOrigin(o))
+				}
+				sort.Strings(os)
+				R.Fail("R20.2", fn+"#census["+pre+"]", 0, fn, fmt.Sprintf("%d distinct causes of kind %s are wrapped into a NotSupportedError (%s) where %d was reviewed: an additional failure cause now falls back to SYN silently under prefer_sack", got, pre, strings.Join(os, "; "), want))
 			}
 		}
 	}
